@@ -138,7 +138,7 @@ def check_index_guards(ck, fn, tag):
             if op == ">" and match.same_expr(r, Es) and is_seqlen(l):
                 okk = True
             # (E' - 1) with E' > 0
-            if sub and const_int(sub[2]) == 1 and op == ">" and match.same_expr(l, sub[1]) and const_int(r) == 0:
+            if sub and const_int(sub[2]) == 1 and op == ">" and match.same_expr(l, sub[1]) and (const_int(r) or 0) >= 0 and const_int(r) is not None:
                 okk = True
             # (n + 1) <= seqlen[X] for element n
             pl = match.binop(l, ("+",))
